@@ -201,7 +201,11 @@ func runC18(w *core.World, r *core.Report) {
 		if ok {
 			_, hcalls, _ := opcodeHandlers(w, r)
 			var inj []*ssa.Call
-			for _, c := range core.CallsTo(run, "context.WithValue") {
+			holder := run
+			if step := vmStepFn(w); step != nil {
+				holder = step // the per-instruction flag protocol may live in a helper that only Run calls
+			}
+			for _, c := range core.CallsTo(holder, "context.WithValue") {
 				if cc, isC := c.(*ssa.Call); isC && isLangKey(cc.Call.Args[1]) {
 					inj = append(inj, cc)
 				}
@@ -209,7 +213,7 @@ func runC18(w *core.World, r *core.Report) {
 			okEdge := false
 			for _, ic := range inj {
 				cut := core.NewCut()
-				for _, c := range flagConstCalls(run, fLang, stResetFlag) {
+				for _, c := range flagConstCalls(holder, fLang, stResetFlag) {
 					if v := core.CallValue(c); v != nil {
 						cut.AddEdge(core.EdgesWhere(v, true)...)
 					}
@@ -235,10 +239,11 @@ func runC18(w *core.World, r *core.Report) {
 	if run := w.Func("vm", "(*Vm).Run"); run != nil {
 		if fLang, ok := constOf(w, r, "state", "FLAG_LANG"); ok {
 			_, hcalls, _ := opcodeHandlers(w, r)
-			cut := core.NewCut()
-			for _, c := range flagConstCalls(run, fLang, stResetFlag) {
-				cut.AddInstr(c.(ssa.Instruction))
-			}
+			cut := cutWithHelpers(w, run, func(fn *ssa.Function, cut *core.Cut) {
+				for _, c := range flagConstCalls(fn, fLang, stResetFlag) {
+					cut.AddInstr(c.(ssa.Instruction))
+				}
+			}, 1)
 			targets := map[ssa.Instruction]bool{}
 			for _, hc := range hcalls {
 				targets[hc] = true
